@@ -245,6 +245,11 @@ class Runner:
             self.tainted = True      # the probe destroyed the result: the history ends here
             if changed:
                 viol.append(('C08', 'result_aliased', 'editing the markers of a result changed another value (shared list objects)'))
+                own = self.OP_PROP.get(getattr(self, 'cur_op', None) or '')
+                if own and own != 'C08':
+                    # the result of a slice / concatenation / pad … is a value of its own: one that changes when its
+                    # source is edited is not the value the operation's property describes
+                    viol.append((own, 'result_aliased', 'the result of %s shares marker lists with another value: editing one changes the other' % self.cur_op))
                 break
         self.pending_probe = []
         return viol
@@ -480,6 +485,8 @@ class Runner:
                 if not (y == x) or O.Snap(y).render != O.Snap(x).render:
                     viol.append(('C08', 'copy_eq', kind))
             self.add_live(y)
+            if kind in ('deepcopy', 'pickle') and not sargs:
+                self._concat_next = y
         for how, t, t2 in pyc:
             if type(t2) is not type(t) or not (t2 == t) or str.__str__(t2) != str.__str__(t) or not O.same_value(O.Snap(t2._s), O.Snap(t._s)):
                 viol.append(('C13', 'ansistr_pycopy', '%s of an AnsiStr is not the AnsiStr: payload %r / rendering %r, original %r' % (
@@ -850,6 +857,8 @@ class Runner:
             self.frozen.append((t, O.Snap(t._s)))                  # operands are arguments: they must not change
             del self.frozen[:-4]
             return ('S', t)
+        if self.rng.random() < 0.08:
+            return ('s', RaddStr(self.text(1, 3)))       # a str subclass that answers `<str> + self` itself
         if self.rng.random() < 0.25:
             return ('s', self.rng.choice(['WARN \x1b[33m', 'x\x1b[3', '1mred?', '\x1b[1m', 'a\x1b[0m', '\x1b', '[31mz', self.text(0, 4, esc=True)]))
         return ('s', self.text(0, 4))
@@ -863,6 +872,26 @@ class Runner:
     def op_concat(self):
         rng = self.rng
         a = self.pick()
+        nxt = getattr(self, '_concat_next', None)
+        if nxt is not None:
+            self._concat_next = None
+            if any(nxt is v for v in self.live):
+                # a copy made by `copy.deepcopy` / `pickle` as the left operand: its stop markers must still be the
+                # objects its start markers are
+                self.do_concat(nxt, ('s', rng.choice(['q', 'xy'])) if rng.random() < 0.5 else ('A', self.pick()), False, None, False)
+                return
+        if rng.random() < 0.06:
+            # directed seam: verbatim multi-code settings whose codes, read together, coincide although the settings differ
+            la, lb = rng.choice([('[1;31', '[4'), ('[1', '[31;4'), ('[38;5', '[9'), ('[1;3', '[4')])
+            ra, rb = rng.choice([('[1', '[31;4'), ('[1;31', '[4'), ('[38', '[5;9'), ('[1', '[3;4')])
+            a = self.A(self.text(1, 3) or 'ab')
+            a.apply_formatting(la); a.apply_formatting(lb)
+            t = self.text(2, 4)
+            b = self.A(t)
+            b.apply_formatting(ra, 0, rng.choice([1, None])); b.apply_formatting(rb)
+            self.add_live(a)
+            self.do_concat(a, ('A', b), rng.random() < 0.4, None, True)
+            return
         if rng.random() < 0.15:
             kv = ('A', a)           # value with itself
         elif rng.random() < 0.25:
@@ -1070,11 +1099,15 @@ class Runner:
     def spec(self):
         rng = self.rng
         if rng.random() < 0.12:
-            return rng.choice(['x', '<<5', '5:nope', '+5', ' 5', 'a+b', ':-1', '^^', '<+5', '> 5', '1.5', 'ab<5', '\n', 'x<5\n', '5\n', ':\n', '>5:red\n', '>6x', '*>6abc', '*->6.2', '>6 :bold', '<6x', '^6 ', '6x', '>6>', '*<6:red:blue'])
+            return rng.choice(['x', '<<5', '5:nope', '+5', ' 5', 'a+b', ':-1', '^^', '<+5', '> 5', '1.5', 'ab<5', '\n', 'x<5\n', '5\n', ':\n', '>5:red\n', '>6x', '*>6abc', '*->6.2', '>6 :bold', '<6x', '^6 ', '6x', '>6>', '*<6:red:blue',
+                               # a width is ASCII digits only
+                               '\u0666', '\u0967\u0968', '\uff18', '1\u0666', '\u0666:red', '*<\u0666', '>\uff11\uff12:bold'])
         fill = rng.choice(['', '', ' ', ':', '+', '-', '0', '7', '*', '<', 'é'])
         sign = rng.choice(['', '', '+', '-'])
         al = rng.choice(['<', '>', '^', ''])
         width = rng.choice(['', '0', '3', '7', '12', '05', '010', '007', '00'])
+        if rng.random() < 0.012:
+            width = rng.choice(['65536', '70001', '65535'])      # no cap on the width: the grammar has none
         if not al:
             fill = sign = ''
         spec = fill + sign + al + width
@@ -1113,6 +1146,19 @@ class Runner:
         if spec:
             viol += self.oracle_spec(x, spec, out, o, rs, re_)
         self.emit('tostr', inp, self.outcome_line(out, P.ok_str), 'to_str(%r,%r,%r,%r) on %r' % (spec, o, rs, re_, x._s), viol, tags=('spec',) if spec else ())
+        if spec and out[0] == 'ok' and len(x._s) >= 1 and not getattr(self, '_again', False) and self.rng.random() < 0.25 and not self.tainted:
+            # the same question again after the markers were changed in place (text unchanged): the answer is for
+            # the value as it is now
+            self._again = True
+            try:
+                if self.rng.random() < 0.6:
+                    self.do_apply(x, ('str', self.rng.choice(['red', 'bold', 'bg_blue', '[1;31'])), self.rng.randrange(0, len(x._s)), None, True)
+                else:
+                    self.do_remove(x, None, 0, self.rng.randint(1, len(x._s)))
+                if not self.tainted:
+                    self.do_tostr(x, spec, o, rs, re_)
+            finally:
+                self._again = False
 
     def oracle_spec(self, x, spec, out, o, rs, re_):
         """C12: grammar, text as format(), equals pad + apply on a copy"""
@@ -1935,6 +1981,8 @@ class Runner:
         st, en = self.bound(x), self.bound(x)
         st = 0 if st is None else st
         pat = self.pattern(x)
+        if rng.random() < 0.2:
+            pat = rng.choice([pat.upper(), pat.lower(), pat.swapcase()])      # the same letters in another case
         other = self.operand()
         w = rng.choice([n, n + 3, 0])
         present = sorted(set(q for ac in O.acts(x) for q in O.texts(ac)))
@@ -2257,6 +2305,14 @@ def simple_texts(a, mod):
         else:
             return None
     return out
+
+class RaddStr(str):
+    """a str subclass whose `__radd__` rewrites the left operand (as markupsafe.Markup escapes it): whoever
+    writes `text + value` instead of taking `str(value)` lets the argument rewrite the receiver"""
+    __slots__ = ()
+    def __radd__(self, other):
+        return RaddStr(str(other).upper().replace('a', '&amp;') + str(self))
+
 
 class StrSub(str):
     """a user-defined str subclass (like an enum.StrEnum member): a str for every purpose"""
